@@ -19,6 +19,10 @@ import (
 const (
 	// class prefix of failures that a known defect of pkg/trie/inmemory explains
 	knownZeroNibble = "zero-low-nibble-prefix"
+	// class prefix of failures explained by the known defect of TrieState that is not repaired:
+	// DeleteChildLimit(limit)/ClearPrefixInChild(WithLimit) with NO open transaction change the child
+	// trie behind the parent trie (stale child root entry, emptied child trie not removed)
+	knownDirectChild = "child-clear-without-transaction"
 
 	prop          = "C08"
 	childRootPfx  = ":child_storage:default:"
@@ -117,6 +121,8 @@ type env struct {
 	// (only set in runs whose knob allows generating it); it prefixes the class.
 	ctx        string
 	zeroNibble bool // knob: prefixes whose last byte has a zero low nibble
+	// knob: limited kill / prefix clear of a child trie with no open transaction
+	directChildClear bool
 }
 
 // fail reports an oracle failure observed on s by a check that every live
@@ -776,6 +782,15 @@ func (e *env) opClear(n ns, kill bool) {
 		viaLimitAPI = true // Option::None as the host functions pass it
 	}
 	plan := e.m.planClear(n, prefix, limited, limit)
+	directChild := plan.direct && n.child && (!kill || limited)
+	if directChild && !e.directChildClear {
+		e.k.Event("skipped", "%s clear with no open transaction (known defect, generated in 1 run of 6)", n)
+		return
+	}
+	if directChild {
+		e.ctx = knownDirectChild
+		defer func() { e.ctx = "" }()
+	}
 	if plan.direct && zeroNib(prefix) {
 		// reaches the trie's ClearPrefix/ClearPrefixLimit/GetKeysWithPrefix (known: strip a trailing zero nibble)
 		e.ctx = knownZeroNibble
@@ -899,26 +914,31 @@ func (e *env) opClear(n ns, kill bool) {
 	}
 	e.each(func(s *sut) {
 		r := res[s]
-		if r != nil && r.haveResult && !plan.direct {
+		// returned flag/number: decided by TrieState, not by the backend - checked on the primary only
+		if r != nil && r.haveResult && !plan.direct && s.primary {
 			// The flag: "some remaining" is required when a backend-only key under the prefix survived
 			// the limit; "all removed" is required when nothing survived and both generations of
 			// Substrate say so. (Both generations say "some remaining" for a few degenerate calls after
 			// which nothing is left, e.g. limit 0 over keys that are already deleted - not asserted.)
 			if len(r.gone) < len(plan.pb) && r.all {
-				e.fail(s, "clear-result-all", "all-removed-flag-true-although-keys-remain/"+name, "%s %s prefix %s limit %s returned allDeleted=true although backend keys under the prefix survive the limit (backend keys under prefix %s, removed %s)", name, n, hx(prefix), lim, renderList(plan.bp), renderList(r.gone))
+				e.failX(s, false, "clear-result-all", "all-removed-flag-true-although-keys-remain/"+name, "%s %s prefix %s limit %s returned allDeleted=true although backend keys under the prefix survive the limit (backend keys under prefix %s, removed %s)", name, n, hx(prefix), lim, renderList(plan.bp), renderList(r.gone))
 			}
 			if len(r.gone) == len(plan.pb) && plan.allKnown && plan.all && !r.all {
-				e.fail(s, "clear-result-all", "all-removed-flag-false-although-nothing-remains/"+name, "%s %s prefix %s limit %s returned allDeleted=false although no key under the prefix remains and no backend key was left unvisited; Substrate reports all removed (backend keys under prefix %s, overlay keys under prefix %s)", name, n, hx(prefix), lim, renderList(plan.bp), renderList(plan.ov))
+				e.failX(s, false, "clear-result-all", "all-removed-flag-false-although-nothing-remains/"+name, "%s %s prefix %s limit %s returned allDeleted=false although no key under the prefix remains and no backend key was left unvisited; Substrate reports all removed (backend keys under prefix %s, overlay keys under prefix %s)", name, n, hx(prefix), lim, renderList(plan.bp), renderList(plan.ov))
 			}
 			// The number: Substrate reports backend keys only (removed, later: visited); gossamer's
 			// unit tests pin "overlay keys deleted + backend keys". Neither reading is excluded:
 			// at least the backend-only keys actually removed, at most backend keys visited plus
 			// the overlay keys that were live.
 			if lo, hi := uint32(len(r.gone)), plan.cntHi+uint32(plan.ovLive); r.deleted < lo || r.deleted > hi {
-				e.fail(s, "clear-result-count", "removed-count-out-of-range/"+name, "%s %s prefix %s limit %s returned %d removed keys; %d backend-only keys were removed, at most %d backend keys could be visited and %d overlay keys were live (backend keys under prefix %s, overlay keys under prefix %s)", name, n, hx(prefix), lim, r.deleted, lo, plan.cntHi, plan.ovLive, renderList(plan.bp), renderList(plan.ov))
+				e.failX(s, false, "clear-result-count", "removed-count-out-of-range/"+name, "%s %s prefix %s limit %s returned %d removed keys; %d backend-only keys were removed, at most %d backend keys could be visited and %d overlay keys were live (backend keys under prefix %s, overlay keys under prefix %s)", name, n, hx(prefix), lim, r.deleted, lo, plan.cntHi, plan.ovLive, renderList(plan.bp), renderList(plan.ov))
 			}
 		}
 		e.sweep(s)
+		if directChild {
+			// a stale child root only shows in the state root
+			e.checkCommitted(s, "after child clear with no open transaction")
+		}
 	})
 }
 
@@ -1077,6 +1097,7 @@ func run(k *kernel.K) {
 	// prefixes whose last byte has a zero low nibble (0x10, 0x1000) only in 1 run of 6: the in-memory
 	// trie strips that nibble in ClearPrefix/ClearPrefixLimit/GetKeysWithPrefix (known finding of C02)
 	e.zeroNibble = k.Bool(1, 6, "knob-zero-low-nibble-prefixes")
+	e.directChildClear = k.Bool(1, 6, "knob-child-clear-without-transaction")
 	e.mainPfx = e.usable(prefixesOf(e.mainKeys, false))
 	if len(e.mainPfx) == 0 {
 		e.mainPfx = []string{"a"}
